@@ -31,7 +31,7 @@ THREADED = [("sync",), ("scrub", "-p", "full"), ("fix",), ("check",)]
 
 def configs(tier):
     cs = [Config(levels=1, ndisks=2, pool=True, contents=["c0/content", "d1/.content"]),
-          Config(levels=2, ndisks=3, pool=True, splits={0: 2, 1: 2}, parity_limit=6144, hashsize=8)]
+          Config(levels=2, ndisks=3, pool=True, splits={0: 2, 1: 2}, parity_limit=6144, hashsize=8, uuid=True)]
     if tier == "thorough":
         cs += [Config(levels=3, z=True, ndisks=2, pool=True), Config(levels=6, ndisks=2, pool=True, contents=["c0/content", "c1/content", "c2/content"])]
     return cs
